@@ -26,9 +26,13 @@ SHARD_SIZE = 200
 CASE_TIMEOUT = 30
 RULE = ('case = prior local state (archive file: absent / empty / proper prefix / same-size corrupt / longer / '
         'complete-correct / complete-but-other; installed index: file absent / empty / other names / stale marker; '
-        'stray files next to the archive such as <archive>.sha256 / .ok / .part) + a HISTORY of 1..4 calls (install or '
-        'download; force, no_cleaning, untar ok / raises / real tar) run on the SAME install directory with nothing '
-        'cleaned in between, each call against its own adversarial server given as two scripts consumed in order: '
+        'stray files next to the archive such as <archive>.sha256 / .ok / .part) + a HISTORY of 1..4 calls (install, '
+        'download or list = prob_status; force, no_cleaning, untar ok / raises / real tar) run on the SAME install '
+        'directory with nothing cleaned in between, by a new InstallDir object per call or by ONE InstallDir object '
+        'that lives across calls (datasets loaded again from the index file for every call), the index file being '
+        'RE-PUBLISHED with another checksum between calls in part of the histories (each call is judged against the '
+        'checksum the file publishes at that moment), each call against its own adversarial server given as two '
+        'scripts consumed in order: '
         'size probes (true size, absent header, header without total, wrong totals incl. 0 and negative, unparsable '
         'total, connection error) and GETs (good or substituted content incl. same length / different bytes; Range '
         'honoured or ignored; truncation, bit flip at any offset, trailing bytes, HTTP error page, connection error, '
@@ -50,9 +54,14 @@ ASSUMPTIONS = ['single process, no concurrent modification of the install direct
                'the installed index file, when present, holds a YAML list of names (or is empty)',
                'an extraction failure (untar_file raising) on a VERIFIED archive is a local fault, not a server '
                'behaviour: the property then requires only that nothing is marked installed',
-               'C17_any_history: the only state the model carries from one call to the next is the archive file and the '
-               'installed index; the harness runs whole histories on one directory so that any other persistent state '
-               'of the implementation that changes a later call shows up as a mismatch / oracle failure',
+               'C17_any_history / C17_any_history_republished: the only state the model carries from one call to the next '
+               'is the archive file and the installed index; the harness runs whole histories on one directory, also with '
+               'one InstallDir object kept alive across calls and across re-publications of the index file, so that any '
+               'other persistent state of the implementation (on disk or in the object) that changes a later call shows '
+               'up as a mismatch / oracle failure',
+               'a Dataset object is not kept across a re-publication of the index (it holds the checksum it was built '
+               'with); datasets are obtained from InstallDir.load_datasets_from_file for every call, as the tool does',
+               'the installed-index file is not modified behind the back of a live InstallDir object (it caches the set)',
                'adaptive servers are covered because the client is deterministic: a server strategy is a function of '
                'the request history, which is what the Coq theorems quantify over']
 EXHAUSTIVE = {'quick': False, 'thorough': True}
@@ -111,16 +120,30 @@ def G(src='good', rng='honour', cut=None, flip=None, extra='', stream_err=False,
             'conn': conn, 'http': http}
 
 
-STEP_KEYS = ('kind', 'force', 'no_cleaning', 'untar', 'via', 'probes', 'gets', 'probe_default', 'get_default', 'chunk')
+STEP_KEYS = ('kind', 'force', 'no_cleaning', 'untar', 'via', 'probes', 'gets', 'probe_default', 'get_default', 'chunk',
+             'expected', 'session')
 
 
 def S(kind='install', force=False, nc=False, untar='fake', via='dataset', probes=(), gets=(),
-      probe_default=None, get_default=None, chunk=None):
-    """one call (`install` or `download`) of a history, with its own server scripts"""
+      probe_default=None, get_default=None, chunk=None, expected=None, session='new'):
+    """one call (`install`, `download` or `list` = prob_status) of a history, with its own server scripts.
+    expected: the checksum the index file publishes when the call is made (None = the case's, 'good' / 'alt' = digest
+    of that content, else a literal); the index file is re-published before the call when it differs from what the
+    file holds.  session: 'new' = a fresh InstallDir object (a new process), 'same' = the InstallDir object of the
+    previous call is used again (a long-running program), the datasets being loaded again from the index file."""
     return {'kind': kind, 'force': force, 'no_cleaning': nc, 'untar': untar, 'via': via,
             'probes': [list(p) for p in probes], 'gets': [dict(g) for g in gets],
             'probe_default': list(probe_default or P('true')), 'get_default': dict(get_default or G()),
-            'chunk': chunk}
+            'chunk': chunk, 'expected': expected, 'session': session}
+
+
+def step_expected(case, step):
+    e = step.get('expected')
+    if e is None:
+        return case['expected']
+    if e in ('good', 'alt'):
+        return sha(B(case[e]))
+    return e
 
 
 def hist(good, steps, alt=None, prior=None, index=None, stray=(), expected=None, tag=''):
@@ -142,10 +165,15 @@ def normalise(case):
     """accept the older single-call layout (flags and scripts at top level)"""
     if 'steps' in case:
         case.setdefault('stray', [])
+        for t in case['steps']:
+            t.setdefault('expected', None)
+            t.setdefault('session', 'new')
         return case
     c = {k: v for k, v in case.items() if k not in STEP_KEYS}
     c['steps'] = [{k: case.get(k) for k in STEP_KEYS}]
     c['steps'][0]['kind'] = 'install'
+    c['steps'][0]['expected'] = None
+    c['steps'][0]['session'] = 'new'
     c['stray'] = case.get('stray', [])
     return c
 
@@ -398,6 +426,7 @@ def gen_histories(rng, thorough):
                               tag='stray/single'))
             out.append(hist(good, [S(untar=untar), S(force=True, untar=untar, get_default=same_len)], alt=alt,
                             stray=[sf], tag='stray/install>force-install'))
+    out.extend(gen_republished(rng, thorough))
     # random histories
     n_rand = 2500 if thorough else 260
     for _ in range(n_rand):
@@ -410,6 +439,7 @@ def gen_histories(rng, thorough):
         if rng.random() < 0.3:
             prior = rng.choice(priors_for(good, alt))[1]
         marker = rng.random() < 0.15
+        republish = rng.random() < 0.35        # the index is re-published between the calls of this history
         steps = []
         for k in range(rng.choice([2, 2, 3, 3, 4])):
             r = rng.random()
@@ -424,7 +454,11 @@ def gen_histories(rng, thorough):
             else:
                 g = rand_get(rng, n)
             kind = 'download' if rng.random() < 0.3 else 'install'
+            if rng.random() < 0.12:
+                kind = 'list'          # (always through the Dataset object: the `list` command only prints)
             steps.append(S(kind, force=rng.random() < (0.6 if k > 0 else 0.2), nc=rng.random() < 0.4,
+                           expected=rng.choice(['good', 'alt']) if republish else None,
+                           session='same' if rng.random() < 0.4 else 'new',
                            untar='fake_raises' if rng.random() < 0.05 else 'fake',
                            via='command' if rng.random() < 0.05 else 'dataset',
                            probes=[rand_probe(rng, n) for _ in range(rng.choice([0, 0, 0, 2]))],
@@ -433,6 +467,47 @@ def gen_histories(rng, thorough):
                            get_default=g if rng.random() < 0.7 else G(), chunk=rng.choice([None, None, 2])))
         out.append(hist(good, steps, alt=alt, prior=prior, index=rand_index(rng, marker),
                         stray=stray_files(good, rng) if rng.random() < 0.25 else (), tag='hist/random'))
+    return out
+
+
+def gen_republished(rng, thorough):
+    """histories during which the dataset index is re-published (the `update` command rewrites the index file) while
+    the server delivers the old or the new archive, run by a new InstallDir per call (CLI) or by ONE InstallDir object
+    that outlives the publication (API / long-running use)"""
+    out = []
+    tar, tar2 = make_tar(1), make_tar(2)
+    for good, alt, untar in [(b'kapture-archive', b'evil-archive-xx', 'fake'), (tar, tar2, 'real'),
+                             (b'release-1', b'release-2+fixes', 'fake')]:
+        old, new = G(), G(src='alt', rng='ignore')          # the server delivers the old / the new archive
+        firsts = [('list', [S('list', expected='good')]),
+                  ('failed-install', [S(untar=untar, expected='good', get_default=G(conn=True))]),
+                  ('install', [S(untar=untar, expected='good')]),
+                  ('install-keep', [S(untar=untar, expected='good', nc=True)]),
+                  ('download', [S('download', expected='good')]),
+                  ('list>download', [S('list', expected='good'), S('download', expected='good', session='same')])]
+        for fn, first in firsts:
+            for session in ('same', 'new'):
+                for sn, g in (('server-still-old', old), ('server-new', new), ('old-then-new', None)):
+                    force = fn.startswith('install')
+                    kw = {'gets': [old], 'get_default': new} if g is None else {'get_default': g}
+                    steps = first + [S(untar=untar, expected='alt', session=session, force=force, **kw)]
+                    if rng.random() < 0.5:      # and once more, forced, from the server that delivers the new archive
+                        steps.append(S(untar=untar, expected='alt', session=session, force=True,
+                                       nc=rng.random() < 0.5, get_default=new))
+                    out.append(hist(good, steps, alt=alt, index=rng.choice([None, OTHERS]),
+                                    tag=f'republish/{fn}/{session}/{sn}'))
+            # re-published and then withdrawn again (back to the first checksum), listing in between
+            out.append(hist(good, first + [S('list', expected='alt', session='same'),
+                                           S(untar=untar, expected='good', session='same', force=True, get_default=new),
+                                           S(untar=untar, expected='good', session='same', force=True)],
+                            alt=alt, tag=f'republish/{fn}/same/there-and-back'))
+        # the new publication is a near miss of the old one / unmatched by anything the server has
+        d = sha(good)
+        for exp in (d[:-1] + ('0' if d[-1] != '0' else '1'), d.upper(), '0' * 64):
+            for session in ('same', 'new'):
+                out.append(hist(good, [S('list', expected='good'), S(untar=untar, expected=exp, session=session),
+                                       S(untar=untar, expected='good', session=session)], alt=alt,
+                                tag='republish/near-miss'))
     return out
 
 
@@ -585,9 +660,17 @@ def run_impl(case, ctx):
     os.makedirs(root)
     archive_path = os.path.join(root, NAME + '.tar.gz')
     index_path = os.path.join(root, INDEX_YAML)
-    with open(index_path, 'wt') as f:
-        yaml.dump({NAME: {'url': URL, 'sha256sum': case['expected']},
-                   'other_1': {'url': URL + '.other', 'sha256sum': '1' * 64}}, f)
+    published = [None]
+
+    def publish(checksum):
+        """(re-)publish the dataset index, as the `update` command does: the file is rewritten"""
+        if published[0] != checksum:
+            with open(index_path, 'wt') as f:
+                yaml.dump({NAME: {'url': URL, 'sha256sum': checksum},
+                           'other_1': {'url': URL + '.other', 'sha256sum': '1' * 64}}, f)
+            published[0] = checksum
+
+    publish(case['expected'])
     if case['prior_archive'] is not None:
         with open(archive_path, 'wb') as f:
             f.write(B(case['prior_archive']))
@@ -606,7 +689,7 @@ def run_impl(case, ctx):
         with open(os.path.join(root, rel), 'wt') as f:
             f.write(text)
 
-    cur = {'server': None, 'events': None, 'step': None}
+    cur = {'server': None, 'events': None, 'step': None, 'install_dir': None}
     orig_untar = karch.untar_file
 
     def marked_now():
@@ -656,6 +739,7 @@ def run_impl(case, ctx):
         for step in case['steps']:
             server = FakeServer(case, step)
             cur.update(server=server, events=[], step=step)
+            publish(step_expected(case, step))
             index_before = _read_index(root)
             archive_before = None
             if os.path.isfile(archive_path):
@@ -664,16 +748,24 @@ def run_impl(case, ctx):
             tree_before = _tree(root)
             outcome, exc = None, None
             try:
-                if step['via'] == 'command':
+                if step['via'] == 'command' and step['kind'] != 'list':
                     args = types.SimpleNamespace(cmd=step['kind'], install_path=root, dataset=[NAME],
                                                  force=step['force'], no_cleaning=step['no_cleaning'])
+                    cur['install_dir'] = None
                     kdd.kapture_download_dataset(args, index_path)
                     outcome = 'returned'
-                else:      # a fresh InstallDir / Dataset per call, as a new process would have
-                    install_dir = kdd.InstallDir(index_filepath=index_path, install_dir_path=root)
+                else:
+                    # a fresh InstallDir per call, as a new process would have -- or ('same') the InstallDir object of
+                    # the previous call; the Dataset objects are always loaded again from the index file
+                    install_dir = cur['install_dir'] if step['session'] == 'same' else None
+                    if install_dir is None:
+                        install_dir = kdd.InstallDir(index_filepath=index_path, install_dir_path=root)
+                    cur['install_dir'] = install_dir
                     dataset = install_dir.load_datasets_from_file()[NAME]
                     if step['kind'] == 'install':
                         outcome = dataset.install(force_overwrite=step['force'], no_cleaning=step['no_cleaning'])
+                    elif step['kind'] == 'list':
+                        outcome = dataset.prob_status()
                     else:
                         outcome = dataset.download(force_overwrite=step['force'])
                     if not isinstance(outcome, str):
@@ -688,7 +780,8 @@ def run_impl(case, ctx):
                     archive_after = H(f.read())
             tree_after = _tree(root)
             changed = sorted(k for k in set(tree_before) | set(tree_after) if tree_before.get(k) != tree_after.get(k))
-            steps_obs.append({'outcome': outcome, 'exc': exc, 'archive_before': archive_before,
+            steps_obs.append({'outcome': outcome, 'exc': exc, 'published': published[0],
+                              'archive_before': archive_before,
                               'archive': archive_after, 'index_before': index_before, 'index': _read_index(root),
                               'requests': server.requests, 'trace': server.trace, 'events': cur['events'],
                               'tree_changed': changed})
@@ -706,7 +799,7 @@ def run_impl(case, ctx):
 # ------------------------------------------------------------------ the property, directly
 def oracle_step(case, step, o):
     """C17 on one call, given the state the call started from (as observed); hashlib, never the Coq model."""
-    expected = case['expected']
+    expected = step_expected(case, step)       # what the index file published when this call was made
     prior = set(o['index_before'])
     final = set(o['index'])
     extracts = [e for e in o['events'] if e[0] == 'extract']
@@ -718,11 +811,13 @@ def oracle_step(case, step, o):
             return 'extraction went to a directory other than the install root'
     if final - {NAME} != prior - {NAME}:
         return 'installed markers of other datasets changed'
-    if step['kind'] == 'download':
+    if step['kind'] in ('download', 'list'):
         if extracts or upgrades or o['tree_changed']:
-            return 'the download command extracted / upgraded / changed the dataset folder'
+            return 'the %s command extracted / upgraded / changed the dataset folder' % step['kind']
         if (NAME in final) != (NAME in prior):
-            return 'the download command changed the installed marker'
+            return 'the %s command changed the installed marker' % step['kind']
+        if step['kind'] == 'list' and o['archive'] != o['archive_before']:
+            return 'listing changed the archive file'
         return None
     ok_extract = bool(extracts) and step['untar'] != 'fake_raises'
     stale_kept = NAME in prior and not step['force']
@@ -835,17 +930,20 @@ def encode(case, obs):
                 evs.append('(EExtract %s %s)' % (cb(e[1]), kv.cbool(e[2])))
             else:
                 evs.append('(EUpgrade %s)' % kv.cbool(e[1]))
-        steps.append('{| t_kind := %s; t_force := %s; t_noclean := %s; t_untar_fails := %s; t_script := %s; '
+        steps.append('{| t_expected := %s; t_kind := %s; t_force := %s; t_noclean := %s; t_untar_fails := %s; '
+                     't_script := %s; '
                      'o_outcome := %s; o_archive := %s; o_index := %s; o_requests := %s; o_log := %s |}' % (
-                         'KInstall' if step['kind'] == 'install' else 'KDownload', kv.cbool(step['force']),
+                         kv.cstr(step_expected(case, step)),
+                         {'install': 'KInstall', 'download': 'KDownload', 'list': 'KList'}[step['kind']],
+                         kv.cbool(step['force']),
                          kv.cbool(step['no_cleaning']), kv.cbool(step['untar'] == 'fake_raises'),
                          kv.clist(cresp(t) for t in o['trace']), oc,
                          kv.copt(None if o['archive'] is None else cb(o['archive'])),
                          kv.clist(kv.cstr(x) for x in o['index']),
                          kv.clist(_creq(r) for r in o['requests']), kv.clist(evs)))
     tbl = kv.clist(kv.cpair(cb(c), kv.cstr(d)) for c, d in sha_table(case, obs))
-    body = ('{| c_name := %s; c_expected := %s; c_sha := %s; c_archive := %s; c_index := %s; c_steps := %s |}' % (
-        kv.cstr(NAME), kv.cstr(case['expected']), tbl,
+    body = ('{| c_name := %s; c_sha := %s; c_archive := %s; c_index := %s; c_steps := %s |}' % (
+        kv.cstr(NAME), tbl,
         kv.copt(None if case['prior_archive'] is None else cb(case['prior_archive'])),
         kv.clist(kv.cstr(x) for x in obs['prior_names']), kv.clist(steps)))
     lets = ''.join('let %s : string := %s in\n ' % (n, lit(b)) for b, n in pool.items())
@@ -863,7 +961,8 @@ def nontrivial(case, obs):
     case = normalise(case)
     contacted = any(o['requests'] for o in obs['steps'])
     return contacted and (len(case['steps']) > 1 or any(_faulty_step(case, t) for t in case['steps']) or
-                          case['expected'] != sha(B(case['good'])) or case['prior_archive'] is not None or
+                          any(step_expected(case, t) != sha(B(case['good'])) for t in case['steps']) or
+                          case['prior_archive'] is not None or
                           NAME in obs['prior_names'])
 
 
@@ -888,8 +987,12 @@ def classify(case, obs):
     if len(case['steps']) == 1:
         t = case['steps'][0]
         return 'prior=%s/%s%s/-> %s' % (_prior_kind(case), marker, '+force' if t['force'] else '', _out(obs['steps'][0]))
-    return 'history/' + ' > '.join('%s%s: %s' % (t['kind'], '+force' if t['force'] else '', _out(o).replace('raised:', '!'))
-                                   for t, o in zip(case['steps'], obs['steps']))
+    pubs = [step_expected(case, t) for t in case['steps']]
+    pre = 'republished/' if len(set(pubs)) > 1 else 'history/'
+    if any(t['session'] == 'same' for t in case['steps'][1:]):
+        pre += 'same-InstallDir/'
+    return pre + ' > '.join('%s%s: %s' % (t['kind'], '+force' if t['force'] else '', _out(o).replace('raised:', '!'))
+                            for t, o in zip(case['steps'], obs['steps']))
 
 
 def _short(h):
@@ -902,7 +1005,8 @@ def describe(case, obs):
             'alt': _short(case['alt']), 'prior_index': case['prior_index'], 'stray': case['stray'],
             'files_left_next_to_archive': obs.get('leftovers'),
             'steps': [{'call': {k: t[k] for k in ('kind', 'force', 'no_cleaning', 'untar', 'probes', 'probe_default',
-                                                  'gets', 'get_default')},
+                                                  'gets', 'get_default', 'expected', 'session')},
+                       'index_publishes': _short(o.get('published')),
                        'observed': {'outcome': o['outcome'], 'exc': o['exc'], 'requests': o['requests'],
                                     'archive_after': _short(o['archive']), 'index_after': o['index'],
                                     'events': [[e[0], _short(e[1])] + e[2:] if e[0] == 'extract' else e
@@ -951,6 +1055,10 @@ def shrink(case):
                     gs = [dict(x) for x in t['gets']]
                     gs[j][f] = v
                     yield upd(gets=gs)
+        if t.get('expected') is not None:
+            yield upd(expected=None)
+        if t.get('session') == 'same':
+            yield upd(session='new')
         if t['no_cleaning']:
             yield upd(no_cleaning=False)
         if t['chunk']:
@@ -969,9 +1077,12 @@ LEVEL_TEXT = ('Theorems in coq/Props/C17.v hold for every server strategy, every
               'successful verified extraction; every other outcome (status corrupted / incomplete, or an exception) '
               'leaves the extraction log empty (or holds one verified extraction that itself failed), no marker and no '
               'upgrade; other datasets\' markers never change; install never returns "downloaded"/"not installed"; the '
-              'invariant composes over any history of calls (C17_any_history); an '
+              'invariant composes over any history of calls (C17_any_history), also when the index is re-published '
+              'between calls: every extraction is verified against the checksum published at the time of its own call '
+              '(C17_any_history_republished; a cached first parse of the index refutes it: C17_cached_index_refuted); an '
               'honest server always leads to a verified installation from every prior state. The model is tied to the '
-              'code by running histories of real Dataset.install / Dataset.download / command calls on one install directory '
+              'code by running histories of real Dataset.install / Dataset.download / prob_status / command calls on one '
+              'install directory (new or long-lived InstallDir object, index file re-published in between) '
               'against a fake requests layer and comparing, per call, '
               'status, archive file, installed index, request sequence (incl. Range offsets) and extraction / upgrade '
               'log inside Coq.')
